@@ -449,3 +449,42 @@ def mutated(draw, base, min_mut=1, max_mut=3, kinds=None):
         if "k" in node and not node["k"]:
             del node["k"]
     return sp, labels
+
+
+# ------------------------------------------------------------------ fixture document as a spec
+
+_fixture = []
+
+
+def fixture_spec():
+    """tests/data/eml.xml as a spec (own lxml walk; None if the file is absent)"""
+    if _fixture:
+        return _fixture[0]
+    import os
+    from lxml import etree
+    from .runner import REPO
+    path = os.path.join(REPO, "tests", "data", "eml.xml")
+    sp = None
+    if os.path.exists(path):
+        def conv(e):
+            d = {"n": etree.QName(e).localname}
+            t = (e.text or "").strip()
+            if t:
+                d["c"] = t
+            a = {k: v for k, v in e.attrib.items() if "{" not in k}
+            if a:
+                d["a"] = a
+            kids = [conv(c) for c in e if isinstance(c.tag, str)]
+            if kids:
+                d["k"] = kids
+            return d
+        sp = conv(etree.parse(path).getroot())
+    _fixture.append(sp)
+    return sp
+
+
+def subtrees_of_fixture(max_size=80):
+    sp = fixture_spec()
+    if sp is None:
+        return []
+    return [s for _, s in spec_nodes(sp) if 2 <= spec_size(s) <= max_size]
